@@ -488,6 +488,13 @@ func (in *Interp) harnessIntrinsic(fn *ssa.Function, name string, args []Value) 
 			in.callValue(f, nil, nil)
 		}()
 		return true, c.Bool(panicked)
+	case "vAbstractCRC":
+		in.abstractCRC = true
+		return true, nil
+	case "vAbstractCRCFixedWidth":
+		in.abstractCRC = true
+		in.crcFixedWidth = true
+		return true, nil
 	case "vLearnBits":
 		// prove x < 2^w under the path condition, then let the simplifier use it
 		x := args[0].(*Term)
